@@ -144,6 +144,11 @@ def cache_coherence(chk, repo: Repo, rule: str, prefixes: Tuple[str, ...], floor
                     fields.discard(cache)
                     bad = []
                     for f in sorted(fields):
+                        # a public field without a property is assigned from outside the class (conditioning sets mutable variables with setattr,
+                        # users assign them): no code of the class runs at that moment, so nothing can reset the cache
+                        if not f.startswith("_") and ci.lookup_prop(f) is None and ci.lookup(f) is None and f in writers \
+                                and any(w[2] == "__init__" for w in writers[f]):
+                            bad.append(f"`{f}` is a plain public attribute (re-assignable without any hook)")
                         for (c, k, wname, wfn) in writers.get(f, []):
                             if wname in ("__init__", "__new__") or wfn is fn:
                                 continue
